@@ -18,7 +18,7 @@ def main():
     for con in C.REGISTRY:
         if filt and filt not in con.qualname:
             continue
-        if getattr(con, "module", None) != modname:
+        if getattr(con, "module", None) != modname or con.trusted:
             continue
         t0 = time.time()
         fr = run_contract(w, con)
